@@ -207,34 +207,28 @@ fn derive_include_shape(
     }
 }
 
-fn derive_not_shape(def: &NotDef, symbol_table: &mut BTreeMap<Rc<str>, Shape>) -> Shape {
-    let shape = def.expr.as_ref().derive_shape(symbol_table);
-    match &shape {
-        Shape::Boolean(_) => {
-            return Shape::Boolean(def.pos.clone());
-        }
-        Shape::Hole(_) => {
-            return Shape::Boolean(def.pos.clone());
-        }
+/// Whether a value of this shape can turn out to be a boolean.
+fn may_be_boolean(shape: &Shape) -> bool {
+    match shape {
+        Shape::Boolean(_) | Shape::Hole(_) => true,
         Shape::Narrowed(NarrowedShape {
             pos: _,
             types: NarrowingShape::Any,
-        }) => {
-            return Shape::Boolean(def.pos.clone());
-        }
+        }) => true,
+        // No candidates at all means nothing is known yet. A candidate can
+        // be unknown or a set of candidates itself.
         Shape::Narrowed(NarrowedShape {
             pos: _,
             types: NarrowingShape::Narrowed(shape_list),
-        }) => {
-            for s in shape_list.iter() {
-                if let Shape::Boolean(_) = s {
-                    return Shape::Boolean(def.pos.clone());
-                }
-            }
-        }
-        _ => {
-            // noop
-        }
+        }) => shape_list.is_empty() || shape_list.iter().any(may_be_boolean),
+        _ => false,
+    }
+}
+
+fn derive_not_shape(def: &NotDef, symbol_table: &mut BTreeMap<Rc<str>, Shape>) -> Shape {
+    let shape = def.expr.as_ref().derive_shape(symbol_table);
+    if may_be_boolean(&shape) {
+        return Shape::Boolean(def.pos.clone());
     }
     Shape::TypeErr(
         def.pos.clone(),
